@@ -10,7 +10,7 @@ the differential run of `harness/h_getopts.c`).  Proofs here are glue on the nam
 Full statement (properties.jsonl) and where each clause is proved, for every well-formed option table (`WF`)
 and every sequence of sources:
 * (a) value = last source that set it, default otherwise; second setting by the same source is a usage error:
-  `sources_are_setting_sequences_*`, `successful_*_is_history`, `last_setter_wins`, `untouched_keeps_state`, `fresh_object_all_default`,
+  `sources_are_setting_sequences_*`, `successful_*_is_history`, `last_setter_wins`, `untouched_keeps_state`, `fresh_object_all_default`, `reuse_restores_defaults`,
   `same_source_twice_is_usage_error`, `set_after_toggle_by_same_source_is_usage_error`
 * (b) toggles: `set_option_spec`, `toggle_switches_others_off`, `optlist_element_denotes_named_option`, `optlist_reads_back_names`
 * (c) abbreviations: `abbrev_full_name_resolves`, `abbrev_resolves_iff_unique`, `abbrev_ambiguous_iff`, `abbrev_unknown_iff`
@@ -68,6 +68,10 @@ theorem fresh_object_all_default {opts : List Opt} {g : G} (h : create opts = so
     g.opts = opts ∧ Inv g ∧ g.spoofed = false ∧ g.nfiles = 0 ∧
     ∀ i, i < opts.length → g.setter i = byDefault ∧ isDefault g i = true ∧
       g.valOf i = (match (g.opt i).defval with | some d => Val.str d | none => Val.null) := create_spec h
+
+/-- `esl_getopts_Reuse` = back to the freshly created object: histories start over -/
+theorem reuse_restores_defaults {opts : List Opt} {g0 g : G} (h : create opts = some g0) (hg : g.opts = opts) : reuse g = g0 :=
+  reuse_eq_create h hg
 
 theorem same_source_twice_is_usage_error {g g1 : G} {i src : Nat} {arg arg' : Option Str} {m : Bool} (hinv : Inv g)
     (hi : i < g.opts.length) (h : setOption g i arg src = .done g1 .ok m) :
